@@ -179,3 +179,28 @@ pub fn pat_byte(p: u8, i: usize) -> u8 {
 pub fn pattern(p: u8, n: usize) -> Vec<u8> {
     (0..n).map(|i| pat_byte(p, i)).collect()
 }
+
+/// Call `$f::<H>($args)` for the hasher kind whose NAME equals `$name` (the 15 of the property list).
+#[macro_export]
+macro_rules! with_hasher {
+    ($name:expr, $f:ident $(, $arg:expr)*) => {{
+        use $crate::hashers::*;
+        let n: &str = $name;
+        if n == KBlake224::NAME { Some($f::<KBlake224>($($arg),*)) }
+        else if n == KBlake256::NAME { Some($f::<KBlake256>($($arg),*)) }
+        else if n == KBlake384::NAME { Some($f::<KBlake384>($($arg),*)) }
+        else if n == KBlake512::NAME { Some($f::<KBlake512>($($arg),*)) }
+        else if n == KGroestl224::NAME { Some($f::<KGroestl224>($($arg),*)) }
+        else if n == KGroestl256::NAME { Some($f::<KGroestl256>($($arg),*)) }
+        else if n == KGroestl384::NAME { Some($f::<KGroestl384>($($arg),*)) }
+        else if n == KGroestl512::NAME { Some($f::<KGroestl512>($($arg),*)) }
+        else if n == KJh224::NAME { Some($f::<KJh224>($($arg),*)) }
+        else if n == KJh256::NAME { Some($f::<KJh256>($($arg),*)) }
+        else if n == KJh384::NAME { Some($f::<KJh384>($($arg),*)) }
+        else if n == KJh512::NAME { Some($f::<KJh512>($($arg),*)) }
+        else if n == KSkein256_32::NAME { Some($f::<KSkein256_32>($($arg),*)) }
+        else if n == KSkein512_64::NAME { Some($f::<KSkein512_64>($($arg),*)) }
+        else if n == KSkein1024_128::NAME { Some($f::<KSkein1024_128>($($arg),*)) }
+        else { None }
+    }};
+}
